@@ -330,9 +330,9 @@ func runC06(c *ctx) {
 }
 
 var c06corpus = []string{
-	// FINDING order-dependent-tie-between-path-types: `/a` Prefix and `/a` begin tie for a.local/a/x; which one
-	// answers depends on the positions of the priority map files created by the OTHER hosts, i.e. on Go's
-	// iteration over HostsMap.rawhosts
+	// repaired by 8cccd42 (was: order-dependent-tie-between-path-types): `/a` Prefix and `/a` begin tie for
+	// a.local/a/x; which one answered depended on the positions of the priority map files created by the
+	// OTHER hosts, i.e. on Go's iteration over HostsMap.rawhosts (5 of 12 processes api, 7 app)
 	"world svc+d/app!http:80:8080!- svc+d/api!http:80:8080!- svc+d/web!http:80:8080!- ing+d/i1@1!haproxy,-!-!a.local>/a:Prefix:app:80+/a:_:api:80+/:Prefix:web:80+/:_:web:80;b.local>/x/y:_:web:80+/x:Prefix:web:80;c.local>/x/y:Prefix:web:80+/x:_:web:80!-!-",
 	// conflicting annotations on a shared backend, equal creation second: namespace/name decides
 	"world svc+d/app!http:80:8080!- ep~d/app!10.0.1.1:r:app-1 ing+d/i2@1!haproxy,-!balance-algorithm=first!a.local>/:Prefix:app:80!-!- ing+d/i1@1!haproxy,-!balance-algorithm=leastconn!b.local>/:Prefix:app:80!-!-",
